@@ -1,7 +1,60 @@
 (* C03 -- property theorems (statements only; proofs live in proofs/). *)
-From Clip Require Import base.Geom base.Winding base.Dist model.RingFinal model.WfGeom proofs.WfGeom.
-From Coq Require Import ZArith List Bool.
+From Clip Require Import base.Geom.
+From Clip Require Import base.Winding.
+From Clip Require Import base.Dist.
+From Clip Require Import model.RingFinal.
+From Clip Require Import model.WfGeom.
+From Clip Require Import proofs.WfGeom.
+From Clip Require Import proofs.RingFinal.
+From Coq Require Import ZArith List Bool Floats.
 Import ListNotations.
+
+(* Structural clause, for ALL raw rings and ALL behaviours of the double-precision leaves (SegmentsIntersect,
+   GetSegmentIntersectPt, Area, AreaTriangle, DotProduct<0 are arbitrary functions here), any PreserveCollinear /
+   ReverseSolution setting: every closed path that ring finalisation (CleanCollinear, FixSelfIntersects incl. the micro
+   self-intersection branch, DoSplitOp, BuildPath64) emits for a raw ring -- the ring itself and everything split off
+   it -- has at least three vertices and no two cyclically consecutive equal vertices.  The one hypothesis:
+   SegmentsIntersect never reports an intersection for two segments that share an end point. *)
+Theorem C03_structural :
+  forall (seg_isect : pt -> pt -> pt -> pt -> bool) (isect_pt : pt -> pt -> pt -> pt -> pt)
+         (area_ring : list pt -> float) (area_tri : pt -> pt -> pt -> float),
+  (forall a b c d, seg_isect a b c d = true -> a <> c /\ a <> d /\ b <> c /\ b <> d) ->
+  forall (dot_neg : pt -> pt -> pt -> bool) (pc rev : bool) (fuel : nat) (ring : list pt) (out : list path),
+  finalize seg_isect isect_pt area_ring area_tri dot_neg pc rev fuel ring = Some out ->
+  Forall (fun p => (3 <= length p)%nat /\ no_cyc_dup p = true) out.
+Proof. exact finalize_structural. Qed.
+Print Assumptions C03_structural.
+
+(* The same for BuildPaths64 over a whole outrec_list_ (open and closed OutRecs, split-off OutRecs appended). *)
+Theorem C03_structural_all_rings :
+  forall (seg_isect : pt -> pt -> pt -> pt -> bool) (isect_pt : pt -> pt -> pt -> pt -> pt)
+         (area_ring : list pt -> float) (area_tri : pt -> pt -> pt -> float),
+  (forall a b c d, seg_isect a b c d = true -> a <> c /\ a <> d /\ b <> c /\ b <> d) ->
+  forall (dot_neg : pt -> pt -> pt -> bool) (pc rev : bool) (fuel : nat) (rings : list (bool * list pt)) (closed opened : list path),
+  build_paths seg_isect isect_pt area_ring area_tri dot_neg pc rev fuel rings = Ok (closed, opened) ->
+  Forall (fun p => (3 <= length p)%nat /\ no_cyc_dup p = true) closed.
+Proof. exact build_paths_structural. Qed.
+Print Assumptions C03_structural_all_rings.
+
+(* Without the hypothesis on SegmentsIntersect the statement is false of the model: a leaf that reports an intersection
+   for segments sharing an end point makes DoSplitOp/BuildPath64 emit a path whose first and last vertex are equal. *)
+Theorem C03_structural_without_leaf_hypothesis_refuted :
+  exists seg_isect isect_pt area_ring area_tri dot_neg pc rev fuel ring out,
+    finalize seg_isect isect_pt area_ring area_tri dot_neg pc rev fuel ring = Some out /\
+    ~ Forall (fun p => (3 <= length p)%nat /\ no_cyc_dup p = true) out.
+Proof. exact structural_needs_leaf_hypothesis. Qed.
+Print Assumptions C03_structural_without_leaf_hypothesis_refuted.
+
+(* CleanCollinear's for(;;) loop terminates: with fuel above n^2 + n - k (n nodes, k nodes accepted since the last
+   removal) the model neither runs out of fuel nor reaches the undefined-behaviour state.
+   Partial: termination of FixSelfIntersects (whose micro self-intersection branch makes the ring grow) is not proved;
+   the correspondence runs report a FUEL answer of the model as a tie break. *)
+Theorem C03_clean_collinear_terminates_partial :
+  forall (dot_neg : pt -> pt -> pt -> bool) (pc : bool) (fuel : nat) (l : list pt) (p k : nat),
+  (k < length l)%nat -> (length l * length l + length l - k < fuel)%nat ->
+  clean_loop dot_neg pc fuel l p k <> Fuel /\ clean_loop dot_neg pc fuel l p k <> UB.
+Proof. exact clean_loop_terminates. Qed.
+Print Assumptions C03_clean_collinear_terminates_partial.
 
 (* The structural checker run on every solution of the validation stream decides the structural clause. *)
 Theorem C03_struct_check_sound : forall out, struct_check out = [] ->
